@@ -76,13 +76,16 @@ for one axis; `nL`, `nR` are the lengths of `lhs_arr`, `rhs_arr` (only the SHAPE
 is used by the source). -/
 def applyPadding (mode : Mode) (dir : Dir) (lhs : Nat → K) (nL nR off : Nat) : Nat → K :=
   if nL ≤ nR then lhs else
-  let istart : Int := off
-  let istop : Int := istart + (min nL nR : Nat)
+  -- the primitive quantities the generated slice arithmetic is written in
+  let offI : Int := off
+  let nLarge : Int := (max nL nR : Nat)
+  let nSmall : Int := (min nL nR : Nat)
+  -- `n_pad_l`, `n_pad_r` of `_apply_padding` itself (used by the `np.arange`s of order1)
   let nPadL : Int := off
   let nPadR : Int := (nL : Int) - nR - off
-  let outerL := pySlice (PadSlices.outer istart istop).1 nL
-  let outerR := pySlice (PadSlices.outer istart istop).2 nL
-  let innerSpec := PadSlices.inner mode istart istop nPadL nPadR
+  let outerL := pySlice (PadSlices.outer offI nLarge nSmall).1 nL
+  let outerR := pySlice (PadSlices.outer offI nLarge nSmall).2 nL
+  let innerSpec := PadSlices.inner mode offI nLarge nSmall
   let innerL := pySlice innerSpec.1 nL
   let innerR := pySlice innerSpec.2 nL
   match mode with
